@@ -12,7 +12,10 @@ op line, and checks
 * resumed handlers observe the effects of the handlers they triggered (`g`/`q` reads equal the tracked values);
 * failure: after `w!` / `w$` nothing further of that handler or of the handlers it interrupted is executed;
 * `on_start` is the first handler, `on_stop` the last; suspended handlers run (once each) when nothing else runs;
-* the final lane values equal the tracked ones.
+* the final lane values equal the tracked ones;
+* sync requests (`vsync`, `msync`) and reads of the lanes' output by the runtime (`rd`) run no handler at all: a
+  lifecycle entry during such an op is a `spurious-trigger` (a change's handlers run exactly once — not again when
+  the write of the change's event completes).
 -/
 import SwimVerif.Model.HandlersIO
 
@@ -139,6 +142,7 @@ inductive Req
   | mupd (m k : Nat) (n : Int)
   | mrem (m k : Nat)
   | mclr (m : Nat)
+  | sync            -- a sync request: `ValueLaneSync` / `MapLaneSync` change nothing and trigger nothing
   deriving DecidableEq, Repr
 
 /-- What may still happen after the current top-level handler failed. -/
@@ -229,6 +233,7 @@ def Req.intent : Req → Option Ev
   | .mupd m k n => some (.wupd m k n)
   | .mrem m k => some (.wrem m k)
   | .mclr m => some (.wclr m)
+  | .sync => none
 
 def Req.lane : Req → Nat
   | .cmd => 99
@@ -236,6 +241,7 @@ def Req.lane : Req → Nat
   | .mupd m _ _ => 10 + m
   | .mrem m _ => 10 + m
   | .mclr m => 10 + m
+  | .sync => 97
 
 def evLane : Ev → Nat
   | .enEvent l _ => l
@@ -379,6 +385,7 @@ def Mon.finish (m : Mon) (status : String) (state : String) : Mon × Option Stri
     -- requests that trigger nothing (remove of an absent key) are applied silently
     let silent := m.reqs.all fun r => match r with
       | .mrem i k => (alGet (m.mapOf i) k).isNone
+      | .sync => true
       | _ => false
     if m.alive then
       if !silent then (m, some "request-not-handled")
@@ -401,6 +408,8 @@ def parseReq (parts : List String) : Option Req :=
   | ["mupd", i, k, n] => do let i ← i.toNat?; let k ← k.toNat?; let n ← parseInt n; pure (.mupd i k n)
   | ["mrem", i, k] => do let i ← i.toNat?; let k ← k.toNat?; pure (.mrem i k)
   | ["mclr", i] => do let i ← i.toNat?; pure (.mclr i)
+  | ["vsync", _] => some .sync
+  | ["msync", _] => some .sync
   | _ => none
 
 /-- `<status> <tokens…> | <state>` -/
@@ -423,6 +432,8 @@ def Mon.step (m : Mon) (line : String) (out : String) : Mon × Option String :=
     | none => (m, some "unparsable-token")
     | some evs =>
       let w := words line
+      -- `agentd <cap> …` is the same agent with the harness as the runtime
+      let w := if w.head? == some "agentd" then "agent" :: w.drop 2 else w
       match w with
       | "agent" :: _ =>
         let m0 : Mon := { vals := List.replicate nv 0, maps := List.replicate nm [], alive := true }
@@ -441,7 +452,9 @@ def Mon.step (m : Mon) (line : String) (out : String) : Mon × Option String :=
           | (m2, none) => m2.finish status state
           | (m2, some r) => (m2, some r)
       | _ =>
-        let items := if w.head? == some "burst" then (w.drop 1).map (fun it => it.splitOn ":") else [w]
+        -- `rd lane k`: the runtime reads the lanes' output; no request is outstanding, so no handler may run
+        let items := if w.head? == some "burst" then (w.drop 1).map (fun it => it.splitOn ":")
+                     else if w.head? == some "rd" then [] else [w]
         match items.mapM parseReq with
         | none => (m, some "unparsable")
         | some rs =>
